@@ -82,6 +82,8 @@ def plan(tier, seed, scale=1.0):
     for i in range(0, len(ints), 16):
         units.append({'kind': 'ints', 'ints': [str(x) for x in ints[i:i + 16]]})
     units.append({'kind': 'shapes'})
+    for t0 in range(0, 128, 32):
+        units.append({'kind': 'exttypes', 'first': t0, 'count': 32})
     fl = values.boundary_floats()
     for i in range(0, len(fl), 32):
         units.append({'kind': 'floats', 'floats': [values.fspec(x)['f'] for x in fl[i:i + 32]]})
@@ -623,6 +625,14 @@ def _run_unit(unit):
                                 'reference_encodings_decoded': {o: e.hex() for o, e in all_choices(x0)},
                                 'stream_cut_after_bytes': list(range(len(U.dumps(x0)))),
                                 'expected_at_every_cut': 'InsufficientDataException'})
+    elif kind == 'exttypes':
+        # every application type code with every header form (fixext 1/2/4/8/16, ext8) and an empty payload
+        rng = prng.rng('c14-exttypes')
+        for t in range(unit['first'], unit['first'] + unit['count']):
+            for n in (0, 1, 2, 3, 4, 8, 16, 17):
+                run_value(acc, {'E': [t, (t * 7 + n) % 256, n]}, 'quick', rng, True, nalt=1)
+            run_value(acc, [{'E': [t, 47, 3]}, {'m': [[{'s': 'k'}, {'E': [t, 0, 0]}], [1, {'E': [t, 46, 1]}]]}], 'quick', rng, False, nalt=1)
+        acc.samples.append({'kind': 'exttypes', 'types': [unit['first'], unit['first'] + unit['count'] - 1]})
     elif kind == 'shapes':
         rng = prng.rng('c14-shapes')
         for spec in values.shapes():
